@@ -232,6 +232,18 @@ class SymScalar:
     def __rtruediv__(self, o):
         return self._bin(o, T.div, True)
 
+    def __floordiv__(self, o):
+        return self._bin(o, _floordiv)
+
+    def __rfloordiv__(self, o):
+        return self._bin(o, _floordiv, True)
+
+    def __mod__(self, o):
+        return self._bin(o, _mod)
+
+    def __rmod__(self, o):
+        return self._bin(o, _mod, True)
+
     def __neg__(self):
         return SymScalar(T.neg(self.t))
 
@@ -319,6 +331,29 @@ class SymScalar:
 
     def item(self):
         return self
+
+
+def _floordiv(a, b):
+    if T.is_conc(a) and T.is_conc(b):
+        return a // b
+    ia = T.is_conc(a) and isinstance(a, int) or (T.is_sym(a) and z3.is_int(a))
+    ib = T.is_conc(b) and isinstance(b, int) or (T.is_sym(b) and z3.is_int(b))
+    if ia and ib:
+        # z3 integer division is floor division for positive divisors; record that
+        bz = b if T.is_sym(b) else z3.IntVal(b)
+        az = a if T.is_sym(a) else z3.IntVal(a)
+        T.ctx().oblige(bz > 0, "integer floor-division by a non-positive divisor", T._where())
+        return az / bz
+    return T.floor_int(T.div(a, b))
+
+
+def _mod(a, b):
+    if T.is_conc(a) and T.is_conc(b):
+        return a % b
+    bz = b if T.is_sym(b) else z3.IntVal(b)
+    az = a if T.is_sym(a) else z3.IntVal(a)
+    T.ctx().oblige(bz > 0, "integer modulo by a non-positive divisor", T._where())
+    return az % bz
 
 
 def _strip_toreal(t):
